@@ -101,9 +101,13 @@ def check_fn(name, x, cfg, NFFT, c):
     if np.any(idx >= s1.shape[-1]):
         return 'the fine grid has no entry for a coarse entry'
     a = s1[..., idx]
-    if not (np.all(np.isfinite(a)) and np.all(np.isfinite(s0))):
+    fin = np.isfinite(s0)
+    if not np.array_equal(fin, np.isfinite(a)):
+        return 'finite on one grid and not on the other at a common frequency'
+    if not np.any(fin):
         return 'non-finite estimate'
-    err = np.max(np.abs(a - s0)) / max(np.max(np.abs(s0)), 1e-300)
+    # (a coefficient vector with a zero exactly on a grid frequency gives the same infinite value on both grids)
+    err = np.max(np.abs(a[fin] - s0[fin])) / max(np.max(np.abs(s0[fin])), 1e-300)
     return None if err <= 1e-7 else 'values differ at a common frequency (relative error %.3g)' % err
 
 
